@@ -157,7 +157,7 @@ def r14_3(ctx, fx):
             n_evict += 1
             # a replace slot designates nodes[i]: the index stored is the index whose `connection` was switched on
             idxl = set()
-            for l in slice_locals(fn, f_["index"]):
+            for l in (slice_locals(fn, f_["index"]) if "index" in f_ else ()):
                 d = fn.single_def(l)
                 if d and d[1] == "assign" and d[2]["rv"]["r"] == "agg" and d[2]["rv"].get("var") == "Some":
                     idxl |= slice_locals(fn, d[2]["rv"]["ops"][0])
